@@ -11,7 +11,8 @@ Line protocol (stateless, one history per line):
           k.<proto>.<mask> takeover (mask 1 = PushUpdater, 2 = Keyboard, 3 = both, 0 = none)
           r  release newest handle               d  drain
           v.<proto>.<val> / o.<proto>.<val> / f.<proto>.<val>   dispatch Volume / OutputDevices / KeyboardFocus
-  → <outputs> <refused> <tkP> <tkK> <mainP> <mainK> <vol> <outs> <foc> <qlen> <lst>
+          a.<proto>.<0|1>  updater's own `active` turns off / on by itself
+  → <outputs> <refused> <tkP> <tkK> <mainP> <mainK> <vol> <outs> <foc> <qlen> <lst> <active>
      outputs : csv of  <i>P<proto>.<val>  |  <i>V<old>.<new>  |  <i>O<old>.<new>  |  <i>F<old>.<new>
                (i = index of the event during which the user listener was called)
      refused : csv of indices of takeover events that raised InvalidStateError
@@ -31,6 +32,9 @@ def parseEv (tok : String) : Option Ev :=
   | ["k", p, m] => do
       let p ← p.toNat?; let m ← m.toNat?
       if p < 5 ∧ m < 4 then some (.takeover p (m % 2 == 1) (m / 2 == 1)) else none
+  | ["a", p, b] => do
+      let p ← p.toNat?; let b ← b.toNat?
+      if p < 5 ∧ b < 2 then some (.selfact p (b == 1)) else none
   | [c, p, v] => do
       let p ← p.toNat?; let v ← v.toNat?
       let k ← (match c with | "v" => some Kind.vol | "o" => some Kind.outs | "f" => some Kind.foc | _ => none)
@@ -72,7 +76,7 @@ def handle (_ : Unit) (ws : List String) : Unit × String :=
       if auto && evs.contains .drain then ((), "bad-op") else
       let r := runIdx auto (init rp rk) 0 evs
       let st := r.1
-      ((), s!"{csv r.2.1} {csv r.2.2} {optStr st.tkP} {optStr st.tkK} {optStr st.mainP} {optStr st.mainK} {st.cur .vol} {st.cur .outs} {st.cur .foc} {st.queue.length} {if st.lst then 1 else 0}")
+      ((), s!"{csv r.2.1} {csv r.2.2} {optStr st.tkP} {optStr st.tkK} {optStr st.mainP} {optStr st.mainK} {st.cur .vol} {st.cur .outs} {st.cur .foc} {st.queue.length} {if st.lst then 1 else 0} {optStr (st.mainP.map (fun p => if st.act p then 1 else 0))}")
     | _, _, _, _ => ((), "bad-op")
   | _ => ((), "bad-op")
 
